@@ -247,3 +247,63 @@ def sp2(P, C, units_prefix=("fitter/",), floor=20):
              "%d release call(s); %s" % (nfree, "no field is read through a released variable" if not bad else
                                          "%s->%s read at %s after the release at %s" % (f.var_name(bad[0][1]), f.nodes[bad[0][0]]["member"],
                                                                                       f.loc(bad[0][0]), bad[0][2])))
+
+
+def so1(P, C):
+    """SO-1: get_column does not depend on the order of the requested rows."""
+    from . import ts
+    C.rule("SO-1", "get_column extracts the requested rows of a column whatever their order: inside the loop over the row set no search position "
+           "is carried from one requested row to the next (the only loop-carried variable is the output count) — its caller appends the newly "
+           "freed row at the END of F and sorts F only after the row-add loop, so a single merge pass over the (sorted) column would skip it", floor=1)
+    f = P.one("get_column", file_endswith="cholesky_solve.c")
+    nF = f.params[4]["id"]
+    outer = None
+    for L in f.walk():
+        if f.k(L) == "ForStmt" and f.nodes[L].get("cond", -1) >= 0:
+            if any(f.k(y) == "DeclRefExpr" and f.nodes[y]["decl"]["id"] == nF for y in f.walk(f.nodes[L]["cond"])):
+                outer = L
+                break
+    if outer is None:
+        raise core.AnalysisBroken("SO-1: the loop over the requested rows (bounded by nF) was not found in get_column")
+    body = f.nodes[outer]["body"]
+    inbody = set(f.walk(body))
+    # the loop's own variable(s): assigned in its init / changed in its increment
+    own = set()
+    for part in ("inc",):
+        for y in f.walk(f.nodes[outer].get(part, -1)) if f.nodes[outer].get(part, -1) >= 0 else []:
+            if f.k(y) == "DeclRefExpr":
+                own.add(f.nodes[y]["decl"]["id"])
+    written, plain = {}, set()
+    for y in inbody:
+        ap = ts.assign_parts(f, y)
+        if not ap:
+            continue
+        t = f.strip(ap[0])
+        if f.k(t) != "DeclRefExpr":
+            continue
+        vid = f.nodes[t]["decl"]["id"]
+        written.setdefault(vid, []).append(y)
+        if f.nodes[y].get("op") == "=" and ap[1] is not None and not any(f.k(z) == "DeclRefExpr" and f.nodes[z]["decl"]["id"] == vid for z in f.walk(ap[1])):
+            plain.add(vid)
+    carried = [v for v in written if v not in plain and v not in own]
+    # carried variables may only count output: every use is a subscript of a store's left-hand side (or its own increment)
+    bad = []
+    for v in carried:
+        for y in inbody:
+            if f.k(y) == "DeclRefExpr" and f.nodes[y]["decl"]["id"] == v:
+                par = f.parent[y]
+                while par >= 0 and f.k(par) in ("ImplicitCastExpr", "ParenExpr"):
+                    par = f.parent[par]
+                if f.k(par) == "UnaryOperator" and f.nodes[par]["op"] in ("++", "--"):
+                    continue
+                sub = par if f.k(par) == "ArraySubscriptExpr" else -1
+                top = f.parent[sub] if sub >= 0 else -1
+                while top >= 0 and f.k(top) in ("ImplicitCastExpr", "ParenExpr"):
+                    top = f.parent[top]
+                is_lhs = sub >= 0 and top >= 0 and ts.assign_parts(f, top) and f.strip(ts.assign_parts(f, top)[0]) == sub
+                if not is_lhs:
+                    bad.append((y, v))
+    C.ob("SO-1", "get_column", "order-insensitive", not bad, f.loc(bad[0][0]) if bad else f.loc(outer),
+         ("loop-carried variables: %s (output count only)" % [f.var_name(v) for v in carried]) if not bad else
+         "`%s` keeps its value from one requested row to the next and steers the search at %s: rows that are not in ascending order are skipped"
+         % (f.var_name(bad[0][1]), f.loc(bad[0][0])))
